@@ -417,7 +417,13 @@ pub fn check_c04(prop: &str, c: &Case, b: &Built, v: &meshless_voronoi::Voronoi,
                     let cosd = n.dot(dir) / dl;
                     // parallel and same direction: |n - dir/|dir|| small
                     let dev = (n - dir / dl).length();
-                    let tol_dir = 16. * s.u * (1. + s.m / dl);
+                    // without a shift the difference of the two (exactly given) generator positions carries one rounding
+                    // only, whatever the distance of the box from the origin; with a shift, `right + shift` is rounded at
+                    // the magnitude of the image position first
+                    let tol_dir = match f.shift() {
+                        None => 16. * s.u,
+                        Some(_) => 16. * s.u * (1. + h.abs().max_element().max(pts[r].abs().max_element()) / dl),
+                    };
                     rep.max("c04.normal_dir_err_over_tol", dev / tol_dir);
                     if !(cosd > 0.) || !(dev <= tol_dir) {
                         rep.violations.push(Violation::new(prop, "c04.normal_direction", format!("face {}->{} shift {:?}: normal {:?} does not point from the left generator to the right one (deviation {:e}, tol {:e})", left, r, f.shift(), n, dev, tol_dir), Some(c), json!({"left": left, "right": r, "normal": v3j(n), "dev": dev})));
